@@ -23,6 +23,16 @@ def case_scripts(case):
     return out
 
 
+def case_post_ops(case, pre=""):
+    """group operations applied after the files were added: inline modules set by name afterwards"""
+    ops = []
+    for f in case["files"]:
+        for w in f.get("wxs", []):
+            if w.get("late"):
+                ops.append(["set_inline", pre + f["path"], w["n"], concretise.wxs_source(w["members"], concretise.FN_TABLE)])
+    return ops
+
+
 def build_sources(case, rnd, nvariants, plain_first=True):
     """-> list of (variant_no, [(path, text)], scripts)"""
     out = []
@@ -49,6 +59,7 @@ def replay(cases, rnd, nvariants=2, chunk=150, want_extra=None, main="a", jobs=N
     for k, ch in enumerate(chunks):
         files = []
         scripts = []
+        post = []
         for ui, u in enumerate(ch):
             pre = ("u%d/" % ui) if prefix else ""
             u["pre"] = pre
@@ -56,7 +67,8 @@ def replay(cases, rnd, nvariants=2, chunk=150, want_extra=None, main="a", jobs=N
                 files.append([pre + p, t])
             for p, t in case_scripts(cases[u["ci"]]):
                 scripts.append([pre + p, t])
-        vcases.append({"id": k, "files": files, "scripts": scripts, "want": ["groups"] + (want_extra or [])})
+            post += case_post_ops(cases[u["ci"]], pre)
+        vcases.append({"id": k, "files": files, "scripts": scripts, "post_ops": post, "want": ["groups"] + (want_extra or [])})
     vres = vlib.run_vh("tmpl", vcases, jobs=jobs)
     # a panic or an unparsable bundle must not hide the rest of its chunk: retry such chunks unit by unit
     retry = []
@@ -72,7 +84,7 @@ def replay(cases, rnd, nvariants=2, chunk=150, want_extra=None, main="a", jobs=N
                 scripts = [[u["pre"] + p, t] for p, t in case_scripts(cases[u["ci"]])]
                 new_chunks.append([u])
                 new_vcases.append({"id": len(chunks) + len(new_chunks), "files": files, "scripts": scripts,
-                                   "want": ["groups"] + (want_extra or [])})
+                                   "post_ops": case_post_ops(cases[u["ci"]], u["pre"]), "want": ["groups"] + (want_extra or [])})
         nres = vlib.run_vh("tmpl", new_vcases, jobs=jobs)
         chunks = [c for k, c in enumerate(chunks) if k not in retry] + new_chunks
         vres = [r for k, r in enumerate(vres) if k not in retry] + nres
